@@ -17,11 +17,12 @@ Non-trivial: depth >= 2 (at least two requests in flight) and an error-producing
 precedes another request in the same in-flight group; distinct by (symbol sequence, depth, transport).";
 
 pub fn style_of(mode: u8, i: usize) -> Style {
-    match mode % 4 {
+    match mode % 5 {
         0 => Style::Compact,
         1 => Style::Spaced,
         2 => Style::FlagsLast,
-        _ => [Style::Compact, Style::Spaced, Style::FlagsLast][i % 3],
+        3 => Style::FlagsFalse,
+        _ => [Style::Compact, Style::FlagsFalse, Style::Spaced, Style::FlagsLast][i % 4],
     }
 }
 
@@ -104,13 +105,15 @@ fn exhaustive(ctx: &mut Ctx, maxlen: usize) {
                     x /= n;
                 }
                 for depth in 1..=len {
+                  // every JSON spelling for the short sequences, the compact one beyond
+                  for style in 0..(if len <= 2 { 4u8 } else { 1u8 }) {
                     let nt = nontrivial(&syms, depth);
                     acc.case(if nt {
-                        Some(hash64(&(&syms, depth, "mem")))
+                        Some(hash64(&(&syms, depth, style, "mem")))
                     } else {
                         None
                     });
-                    match run_mem(&svc, &syms, depth, 0) {
+                    match run_mem(&svc, &syms, depth, style) {
                         Ok(st) => {
                             if st.closed_early {
                                 acc.class("mem:closed-early");
@@ -119,15 +122,16 @@ fn exhaustive(ctx: &mut Ctx, maxlen: usize) {
                             }
                         }
                         Err(f) => acc.fail(
-                            (len as u64) << 40 | (idx as u64) << 4 | depth as u64,
+                            (len as u64) << 40 | (idx as u64) << 6 | (depth as u64) << 3 | style as u64,
                             &f.key,
                             &f.what,
-                            case_json(&syms, depth, 0, "mem"),
+                            case_json(&syms, depth, style, "mem"),
                         ),
                     }
                     if idx % 997 == 0 && depth == len {
-                        acc.sample(|| case_json(&syms, depth, 0, "mem"));
+                        acc.sample(|| case_json(&syms, depth, style, "mem"));
                     }
+                  }
                 }
                 idx += nw;
             }
@@ -144,8 +148,7 @@ fn exhaustive(ctx: &mut Ctx, maxlen: usize) {
 /// Symbols after which the T-service is expected to close the connection (generated dispatch
 /// returns Err after its InvalidParameter reply; a `continues` reply without `more` fails).
 pub fn closes(s: &Sym) -> bool {
-    matches!(s.kind, Kind::BadMissing | Kind::BadType)
-        || (s.kind == Kind::NaiveStream && s.flag != Flag::More)
+    s.closes()
 }
 
 /// Random sequences; 60% of them avoid the closing symbols so that long pipelines stay open.
@@ -160,7 +163,7 @@ pub fn seq_strategy(
     (
         prop::collection::vec((0..n, 0..m), lo..=hi),
         any::<prop::sample::Index>(),
-        0u8..4,
+        0u8..5,
         0u8..10,
     )
         .prop_map(move |(ix, d, style, mode)| {
